@@ -91,6 +91,17 @@ func gramCases(j run.Job, yield func(c GCase)) {
 				yield(GCase{G: g, In: in, NT: 0, Fam: fam})
 			}
 		}
+	case "sharing":
+		r := rand.New(rand.NewSource(j.Seed))
+		for gi := 0; gi < j.N; gi++ {
+			g := gram.Sharing(r, gram.SharingOpts{Trims: j.Param("trims", 0) == 1})
+			l := r.Intn(4)
+			bs := make([]byte, l)
+			for i := range bs {
+				bs[i] = g.Alpha[r.Intn(len(g.Alpha))]
+			}
+			yield(GCase{G: g, In: string(bs), NT: 0, Fam: "sharing"})
+		}
 	case "corpus":
 		for _, s := range gram.SeedCorpus() {
 			for _, in := range s.Inputs {
